@@ -270,6 +270,8 @@ class PtTempo(BaseAPIClass):
         """
         if self._backend_instance.step is None:
             self._backend_instance.initialize()
+        elif self._backend_instance.step >= self._backend_instance.num_steps:
+            return
 
         progress = get_progress(progress_type)
         title = "--> PT-TEMPO computation:"
